@@ -405,6 +405,11 @@ func ruleR071(c *Ctx) {
 								handled = true
 							}
 						}
+						// a probe: the function reports presence with a final bool (v, ok) and answers "absent" here: the
+						// failed lookup is the absence (closureInField: AccessMap failed = no such field)
+						if tv := info.Types[last]; tv.Value != nil && tv.Value.Kind() == constant.Bool && !constant.BoolVal(tv.Value) {
+							handled = true
+						}
 					} else {
 						handled = true // bare return with named results
 					}
